@@ -139,12 +139,16 @@ def run():
             if e.get("ev") == "rret" and e.get("err") == "timeout":
                 rep.violation("stuck-reload|timeout", "a reload did not finish within its (generous) timeout under stress: %s" % raw.strip(), {"event": e})
     subprocess.run(["rm", "-rf", tmp])
+    rep.cov = {}
+    import c06
+    c06.control(rep, "C14")          # the control plane at shutdown (Control.tla): crash or touch of a destroyed backend
+    control_cov = rep.cov.get("control_plane")
     rep.cov = {"states": states, "transitions": trans, "traces_validated_against_impl": len(traces),
                "samples": [dict(backend=b, seconds=d, partial_only=p) for b, d, p in plans],
                "evaluations": queries + reloads, "distinct_nontrivial": reloads,
                "rule": "stress runs under the race detector; evaluations = queries served + reloads performed concurrently; non-trivial = reloads "
                        "executed while 8-12 query workers and a statistics reporter were running",
-               "events_validated": total, "race_reports": races, "rejections_belonging_to_other_properties": other}
+               "events_validated": total, "race_reports": races, "rejections_belonging_to_other_properties": other, "control_plane": control_cov}
     rep.assumptions = ["the Go race detector only sees races on executed paths", "TLC", "absence of a report is not a proof of race freedom"]
     return rep.finish()
 
